@@ -154,6 +154,11 @@ CfgK(X) ==
        exp |-> IF preOk THEN F ELSE F0,
        obs |-> ObsInsnCFG(t.post)]
 
+\* (returns do not follow a retargeted call: finding KF-C18-1 of C18; the Returns
+\* clause of this group does not judge batches that retarget a call operand)
+RetargetsACall(X) ==
+  HasRetarget(X.t) /\ \E b \in Range(AllBlocks(X.t.pre)) : \E j \in DOMAIN b.units :
+      b.units[j].k = "call" /\ b.units[j].tg = X.t.retarget[1]
 C03_Fallthrough(K) == ByType(K.obs, {"Fallthrough"}) = K.exp.ft
 C03_BranchCall(K) == ByType(K.obs, {"Branch", "Call"}) = K.exp.bc
 C03_Returns(K) == ByType(K.obs, {"Return"}) = K.exp.ret
